@@ -226,6 +226,10 @@ def _routing(env, cfg):
                   arr.shape == (1, d) and all(same_term(arr[0, j], x[f]) for j, f in enumerate(names)))
         ref = {'output': pred.val([x[f] for f in names], 0)}
         _same_dict(env, 'result_independent_of_key_order', out, ref)
+        x_b = sym_row(env, names, 'xb')
+        x_b_in = {k: x_b[k] for k in reversed(list(x_b.keys()))}
+        out_b = guarded(env, 'call_dict', w, x_b_in)
+        _same_dict(env, 'second_call_uses_the_second_input', out_b, {'output': pred.val([x_b[f] for f in names], 0)})
         outs = guarded(env, 'call_list', w, [xin, x])
         arr2 = pred.inputs[-1]
         env.claim('batch_rows_routed_the_same_way', arr2.shape == (2, d) and
